@@ -1,4 +1,5 @@
 import H2V.Lemmas.ConnWakePBasic
+import H2V.Lemmas.ConnWakePClone
 /-
   ConnWakeP, part 2 — `State` transitions respect the state clauses of `SStep`; the waker-touching
   methods of `Stream` (`notify_send`, `notify_recv`, `notify_push`, `notify_capacity`,
@@ -131,24 +132,33 @@ theorem assignCapacity_sstep (a : Stream) (c m : Nat) : SStep (a.assignCapacity 
     exact h0.trans (notifyCapacity_sstep _)
   · exact Inert.sstep (by inert) _
 
-theorem sendData_sstep (a : Stream) (len m : Nat) : SStep (a.sendData len m).2.1 a (a.sendData len m).1 := by
-  unfold Stream.sendData
+/-- `Stream::send_data`, through its clone (see `ConnWakePClone.lean`: `Stream.sendData` itself must
+    never be unfolded) -/
+theorem sendDataC_sstep (capf : Stream → Nat → Nat) (a : Stream) (len m : Nat) :
+    ∃ b w f, sendDataC capf a len m = (b, w, f) ∧ SStep w a b := by
+  rw [sendDataC_def]
+  rcases h : a.sendFlow.sendData len with ⟨fl, r⟩
   simp only
-  split
-  · have h0 : SStep [] a { a with sendFlow := (a.sendFlow.sendData len).fst,
-        bufferedSendData := wrapSubUsize a.bufferedSendData len,
-        requestedSendCapacity := wrapSubU32 a.requestedSendCapacity len } := Inert.sstep (by inert) []
-    exact h0.trans (notifyCapacity_sstep _)
-  · exact Inert.sstep (by inert) _
+  generalize hs1 : ({ a with sendFlow := fl, bufferedSendData := wrapSubUsize a.bufferedSendData len, requestedSendCapacity := wrapSubU32 a.requestedSendCapacity len } : Stream) = s1
+  have h0 : SStep [] a s1 := by subst hs1; exact Inert.sstep (by inert) []
+  by_cases hc : capf a m < capf s1 m
+  · rcases hn : s1.notifyCapacity with ⟨b, w⟩
+    have h1 := notifyCapacity_sstep s1
+    rw [hn] at h1
+    simp only [if_pos hc]
+    exact ⟨_, _, _, rfl, SStep.mono (by simp) (h0.trans h1)⟩
+  · simp only [if_neg hc]
+    exact ⟨_, _, _, rfl, h0⟩
+
+theorem sendData_sstep (a : Stream) (len m : Nat) : ∃ b w f, a.sendData len m = (b, w, f) ∧ SStep w a b := by
+  rw [sendDataC.eq]; exact sendDataC_sstep _ _ _ _
 
 theorem setReset_sstep (a : Stream) (r : Reason) (i : Initiator) : SStep (a.setReset r i).2 a (a.setReset r i).1 := by
-  have h0 : SStep [] a { a with state := a.state.setReset a.id r i } :=
-    sstep_of_state _ ⟨rfl, rfl, rfl, rfl, rfl, rfl, rfl, rfl⟩ (setReset_ok _ _ _ _)
-  have h1 := notifySend_sstep { a with state := a.state.setReset a.id r i }
-  have h2 := notifyPush_sstep ({ a with state := a.state.setReset a.id r i } : Stream).notifySend.1
-  have h3 := notifyRecv_sstep (({ a with state := a.state.setReset a.id r i } : Stream).notifySend.1).notifyPush.1
-  have := ((h0.trans h1).trans h2).trans h3
-  simpa [Stream.setReset] using this
+  have hs := setReset_ok a.state a.id r i
+  cases h1 : a.sendTask <;> cases h2 : a.openTask <;> cases h3 : a.recvTask <;> cases h4 : a.pushTask <;>
+    simp only [Stream.setReset, Stream.notifySend, Stream.notifyPush, Stream.notifyRecv, h1, h2, h3, h4] <;>
+    refine ⟨rfl, rfl, hs.1, hs.2.1, hs.2.2, ?_, ?_, ?_, ?_, fun h => h, Or.inl rfl, Or.inl ⟨0, rfl⟩⟩ <;>
+    simp [SlotStep, h1, h2, h3, h4]
 
 /-- after `set_reset` all four waker slots are empty -/
 theorem setReset_slots (a : Stream) (r : Reason) (i : Initiator) :
